@@ -270,7 +270,7 @@ def run(ctx):
     facts = ctx.facts()
     thms = ctx.build_and_audit(["NutsProofs.Props.C10"])
     required = ["fact_latest_non_deactivated_table", "fact_matches_steps", "fact_shelf_puts", "fact_get_errors_returned", "fact_stats_codec",
-                "fact_store_constants", "fact_history_guard_and_event_document", "read_fault_never_changes_an_answer", "stats_shelf_tracks_counters", "bytes_handed_out_are_order_and_failure_independent", "fault_class_db_iff", "referenced_documents_are_stored", "resolve_reads_the_selected_version", "failed_add_leaves_the_store_unchanged",
+                "fact_store_constants", "fact_history_guard_and_event_document", "read_fault_never_changes_an_answer", "history_reads_published_bytes", "stats_shelf_tracks_counters", "bytes_handed_out_are_order_and_failure_independent", "fault_class_db_iff", "referenced_documents_are_stored", "resolve_reads_the_selected_version", "failed_add_leaves_the_store_unchanged",
                 "doc_shelves_do_not_change_the_store", "stats_codec_roundtrip", "stats_shelf_refines_counters",
                 "resolve_order_independent", "store_is_fold", "merge_deterministic", "before_strict_total",
                 "insert_sorted_perm", "deactivated_monotone", "conflict_resolved_by_covering_update", "stats_order_independent", "stats_are_what_the_states_imply",
